@@ -43,6 +43,7 @@ def parseOp (t : String) : Option Op :=
   | "OP_HASH160" => some .hash160 | "OP_CHECKSIG" => some .checkSig
   | "OP_CHECKSIGVERIFY" => some .checkSigVerify | "OP_CHECKMULTISIG" => some .checkMultiSig
   | "OP_CHECKSEQUENCEVERIFY" => some .csv | "OP_CHECKLOCKTIMEVERIFY" => some .cltv
+  | "OP_VERIFY" => some .verify
   | "[rip:h]" => some (.push (.h160 (.pre 0)))
   | "[rip:x]" => some (.push (.h160 (.pre 1)))
   | _ =>
